@@ -84,6 +84,17 @@ class Cfg:
         r = absval.sens_reach(self, self._du, [(src, {})], blocked_nodes=set(through))
         return not any(d in r for d in dst)
 
+    def must_pass_after(self, edge, dst, through):
+        """once `edge` (src,label,dst) has been taken, every way to a block of `dst` goes through a block of `through`; branches whose
+        outcome the edge decides (a value built on it and matched later, `?`) are pruned"""
+        if isinstance(dst, int): dst = [dst]
+        if edge[2] in set(through): return True
+        if self.must_pass(edge[2], dst, through): return True
+        from . import absval
+        if getattr(self, "_du", None) is None: self._du = DefUse(self.body)
+        r = absval.sens_reach_from_edge(self, self._du, tuple(edge), blocked_nodes=set(through))
+        return not any(d in r for d in dst)
+
     def edge_dominates(self, edge, node):
         """node is unreachable from entry unless `edge` (src,label,dst) is taken"""
         if node not in self.reach(0, blocked_edges={edge}): return True
